@@ -169,7 +169,9 @@ int getentropy(void *buffer, size_t len) {
     g_bytes += len;
     long cap = g_cap;
     if (g_cap && g_nthreads > 1) cap += g_cap_slack * (g_nthreads < 64 ? g_nthreads : 64);
-    int capped = g_cap && seq > cap && g_bytes > 16ULL * (unsigned long long)cap;
+    /* second clause: a tool that fetches entropy in large batches makes few requests; bound it by bytes (room for 2*cap candidates
+       of 32 bytes), or a search that can never match would only end at the CPU limit */
+    int capped = g_cap && ((seq > cap && g_bytes > 16ULL * (unsigned long long)cap) || g_bytes > 64ULL * (unsigned long long)cap);
     if (g_failed && !fail && g_postfail_delay > 0 && !t_postfail_done) {
         t_postfail_done = 1;
         delay += g_postfail_delay;
